@@ -190,6 +190,7 @@ pub fn gen_case(prop: &str, seed: u64) -> Case {
         "C04" => {
             let mut p = Profile::base();
             p.max_steps = 7;
+            case.params.insert("avoid".into(), avoid.on as i64);
             p.unicode_names_pct = 30;
             p.w_create = 8;
             p.w_drop = 4;
@@ -202,6 +203,14 @@ pub fn gen_case(prop: &str, seed: u64) -> Case {
             p.max_rows_per_insert = 12;
             if krng.chance(1, 3) {
                 knobs.rowset_size = *krng.pick(&[64usize, 128, 256]);
+            }
+            // some longer histories: the manifest grows past a page boundary or two
+            if krng.chance(1, 8) {
+                p.max_steps = 36;
+                p.max_tables = 6;
+                p.w_create = 12;
+                p.max_rows_per_insert = 3;
+                p.w_advance = 4;
             }
             let mut g = Gen::new(&mut wrng, p);
             case.steps = g.history();
